@@ -130,7 +130,7 @@ def run(ctx):
     def fresh(kind=""):
         if kind.startswith("slc"):
             return SLCScenario(rng)
-        sc = LogixScenario(rng, config=("fw32", 32, False, True), project=project(rng))
+        sc = LogixScenario(rng, config=("fw32", 32, False, True), project=project(rng), bridge=False)   # faults are aimed at unrouted messages too
         sc.dev.read_frag = "full"
         return sc
 
@@ -477,7 +477,7 @@ def run(ctx):
         if not ctx.mine(ui):
             continue
         try:
-            sc2 = LogixScenario(rng, size="small", config=("fw32", 32, False, True), open_driver=False)
+            sc2 = LogixScenario(rng, size="small", config=("fw32", 32, False, True), open_driver=False, bridge=False)
             state = {"n": 0}
             if what in ("register", "list_identity"):
                 from pycomm3.socket_ import Socket
@@ -541,6 +541,48 @@ def run(ctx):
             sc2.b.close()
         except ScenarioDead:
             continue
+    # ---- ListIdentity replies to the UDP broadcast of discover(): a reply with a non-zero encapsulation status - even with an intact
+    # identity item - and a reply cut short are not successes: discover() lists exactly the devices that answered with status 0
+    if ctx.shard in (1, 2):
+        import pycomm3 as p_
+        from vlib.bench import Bench
+        from vlib import devices
+        for rep in range(12 if ctx.quick else 60):
+            b_ = Bench(rng)
+            kinds_ = [rng.choice(["ok", "ok", "status", "status", "cut", "header-only"]) for _ in range(rng.randint(1, 5))]
+            idents_ = [devices.random_identity(rng) for _ in kinds_]
+
+            def udp_(data, addr, kinds_=kinds_, idents_=idents_):
+                try:
+                    h = enc.parse_header(data)
+                except enc.EncapError:
+                    return []
+                if h["command"] != 0x63:
+                    return []
+                out = []
+                for kd, idn in zip(kinds_, idents_):
+                    fr = enc.build_frame(0x63, 0, (1).to_bytes(2, "little") + idn.list_identity_item(), context=h["context"])
+                    if kd == "status":
+                        fr = fr[:8] + rng.choice([1, 2, 3, 0x64, 0x65, 0x69, 0xFFFF]).to_bytes(4, "little") + fr[12:]
+                    elif kd == "cut":
+                        n_ = rng.randrange(24, len(fr) - 1)
+                        fr = fr[:2] + (n_ - 24).to_bytes(2, "little") + fr[4:n_]
+                    elif kd == "header-only":
+                        fr = fr[:2] + b"\x00\x00" + fr[4:8] + (1).to_bytes(4, "little") + fr[12:24]
+                    out.append(fr)
+                return out
+            b_.net.udp_handler = udp_
+            st_, devs_ = b_.call("discover", p_.CIPDriver.discover)
+            res.ev()
+            res.seen("discover", tuple(sorted(set(kinds_))))
+            good = [i_ for k_, i_ in zip(kinds_, idents_) if k_ == "ok"]
+            if st_ != "ok":
+                if not isinstance(devs_, PycommError):
+                    res.violation(f"foreign-exception:discover:{type(devs_).__name__}", f"discover() with replies {kinds_} raised {devs_!r:.160}", {"kinds": kinds_})
+            elif not isinstance(devs_, list) or sorted(d_.get("serial") for d_ in devs_) != sorted(f"{i_.serial:08x}" for i_ in good):
+                res.violation("discover-lists-a-reply-that-is-not-a-success", f"discover() with replies {kinds_} (serials of the status-0, complete ones: {[f'{i_.serial:08x}' for i_ in good]}) returned "
+                              f"{[d_.get('serial') for d_ in devs_] if isinstance(devs_, list) else devs_!r:.200}", {"kinds": kinds_})
+            b_.close()
     res.sample({"kind": "read1", "forced": "general status 0x05, extended 0x0000", "expect": "falsy Tag whose error names status 0x05"})
     res.sample({"kind": "readfrag", "fault": "reply #2 cut to 30 bytes", "expect": "library exception or falsy Tag, never a foreign exception"})
     return res
